@@ -871,7 +871,7 @@ class CFG:
                                     cv_converter, states):
         productions_temp = []
         for state_p in states:
-            next_states = other_fst(state_p, production.body[0].value)
+            next_states = list(other_fst(state_p, production.body[0].value))
             if next_states:
                 new_head = \
                     cv_converter.to_cfg_combined_variable(
